@@ -110,9 +110,9 @@ Section SkipInserter.
     sk_owed st + 2 ^ ws * (sk_elapsed st + 2 ^ we * (b2n (sk_rdy st) + 2 * (b2n (sk_ov st) + 2 *
       (sk_od st + 2 ^ (8 * B) * sk_oc st)))).
   Definition ski_dec (m : N) : ski_st :=
-    let a := m / 2 ^ ws in let b := a / 2 ^ we in let c := b / 2 in let d := c / 2 in
-    {| sk_owed := m mod 2 ^ ws; sk_elapsed := a mod 2 ^ we; sk_rdy := N.odd (b mod 2);
-       sk_ov := N.odd (c mod 2); sk_od := d mod 2 ^ (8 * B); sk_oc := d / 2 ^ (8 * B) |}.
+    let a := N.shiftr m ws in let b := N.shiftr a we in let c := N.shiftr b 1 in let d := N.shiftr c 1 in
+    {| sk_owed := N.land m (N.ones ws); sk_elapsed := N.land a (N.ones we); sk_rdy := N.odd b;
+       sk_ov := N.odd c; sk_od := N.land d (N.ones (8 * B)); sk_oc := N.shiftr d (8 * B) |}.
   Definition ski_wf (st : ski_st) : Prop :=
     sk_owed st < 2 ^ ws /\ sk_elapsed st < 2 ^ we /\ sk_od st < 2 ^ (8 * B).
 End SkipInserter.
@@ -172,7 +172,7 @@ Section TxPath.
 
   Definition txp_enc (st : txp_st) : N := bits2N (tx_reg st) + 2 ^ 16 * ski_enc 4 we ws (tx_ctc st).
   Definition txp_dec (m : N) : txp_st :=
-    {| tx_reg := N2bits 16 (m mod 2 ^ 16); tx_ctc := ski_dec 4 we ws (m / 2 ^ 16) |}.
+    {| tx_reg := N2bits 16 (N.land m (N.ones 16)); tx_ctc := ski_dec 4 we ws (N.shiftr m 16) |}.
   Definition txp_wf (st : txp_st) : Prop := length (tx_reg st) = 16%nat /\ ski_wf 4 we ws (tx_ctc st).
 End TxPath.
 
